@@ -21,24 +21,20 @@ func checkVoteTagsDistinct(c *core.Ctx, rule string) {
 	if fn == nil {
 		return
 	}
-	cg := c.P.CG()
 	byTag := map[string][]string{}
 	n := 0
-	for _, e := range cg.In[fn] {
-		if e.Site == nil {
-			continue
-		}
+	// call sites, looking through private forwarding helpers (the tag is then what the helper's caller passes)
+	forEachEffectiveSite(c, fn, func(caller *ssa.Function, site ssa.CallInstruction, args []ssa.Value) {
 		n++
-		caller := e.Caller
 		c.Touch(caller)
-		k, ok := ir.Strip(e.Site.Common().Args[1]).(*ssa.Const)
+		k, ok := ir.Strip(args[1]).(*ssa.Const)
 		if !ok || k.Value == nil || k.Value.Kind() != constant.String {
-			c.Violate(rule, caller, "ledger tag is a string constant", c.P.Rel(e.Site.Pos()), "")
-			continue
+			c.Violate(rule, caller, "ledger tag is a string constant", c.P.Rel(site.Pos()), "")
+			return
 		}
 		tag := constant.StringVal(k.Value)
 		byTag[tag] = append(byTag[tag], ir.FuncName(caller))
-	}
+	})
 	c.Floor("CheckConsensusSigns call sites ("+rule+")", n, 10)
 	tags := ir.SortedKeys(byTag)
 	for _, t := range tags {
